@@ -208,23 +208,23 @@ theorem cell_coords_eq_idx (g : GridShape) (x y z : Int)
     exact_mod_cast this
 
 theorem speciesIndex_idx (labels : List String) (i : Nat) (h : i < labels.length) :
-    speciesIndex labels (.idx i) = some i := by
-  simp [speciesIndex, h]
+    trajSpeciesIndex labels (.idx i) = some i := by
+  simp [trajSpeciesIndex, h]
 
 theorem speciesIndex_idx_none (labels : List String) (i : Int) (h : i < 0 ∨ (labels.length : Int) ≤ i) :
-    speciesIndex labels (.idx i) = none := by
-  simp only [speciesIndex]
+    trajSpeciesIndex labels (.idx i) = none := by
+  simp only [trajSpeciesIndex]
   rw [if_neg]
   omega
 
 theorem speciesIndex_label (labels : List String) (s : String) :
-    (∀ k, speciesIndex labels (.label s) = some k →
+    (∀ k, trajSpeciesIndex labels (.label s) = some k →
         ∃ h : k < labels.length, labels[k] = s ∧ ∀ j, ∀ hj : j < k, labels[j] ≠ s) ∧
-    (speciesIndex labels (.label s) = none ↔ s ∉ labels) ∧
-    speciesIndex labels (.obj s) = speciesIndex labels (.label s) := by
+    (trajSpeciesIndex labels (.label s) = none ↔ s ∉ labels) ∧
+    trajSpeciesIndex labels (.obj s) = trajSpeciesIndex labels (.label s) := by
   refine ⟨?_, ?_, rfl⟩
   · intro k hk
-    simp only [speciesIndex] at hk
+    simp only [trajSpeciesIndex] at hk
     split at hk
     · rename_i hlt
       cases hk
@@ -235,7 +235,7 @@ theorem speciesIndex_label (labels : List String) (s : String) :
         have := List.not_of_lt_findIdx hj
         simpa using this
     · cases hk
-  · simp only [speciesIndex]
+  · simp only [trajSpeciesIndex]
     constructor
     · intro h
       split at h
@@ -293,7 +293,7 @@ theorem queryTime_unit_independent {tu : Units} {x y : UVal} {a b : Rat} (hv : t
 
 /-! ## sample-index lookups -/
 
-theorem lookupLoop_spec (cond : Rat → Rat → Bool) (ret : Nat → Rat → Rat → Option Nat) :
+theorem lookupLoop_spec (cond : Rat → Rat → Bool) (ret : Nat → Rat → Rat → Option (Bool × Nat)) :
     ∀ (l : List Rat) (i : Nat),
       (∃ k, ∃ h : k + 1 < l.length, cond l[k] l[k+1] = true ∧
           (∀ j, ∀ hj : j < k, cond (l[j]'(by omega)) (l[j+1]'(by omega)) = false) ∧
@@ -363,55 +363,6 @@ theorem all_le_of_no_bracket (l : List Rat) (t : Rat) (h0 : ∀ h : 0 < l.length
     by_contra hc
     exact this ⟨hk, lt_of_not_ge hc⟩
 
-theorem infeq_spec (ts : List Rat) (t : Rat) (hs : ts.Pairwise (· ≤ ·)) :
-    (sampleInfeq ts t = none ↔ ∀ i, ∀ h : i < ts.length, t < ts[i]) ∧
-    (∀ r, sampleInfeq ts t = some r → ∃ h : r < ts.length, ts[r] ≤ t ∧
-        ∀ j, ∀ hj : j < ts.length, r < j → t < ts[j]) := by
-  have hsorted := List.pairwise_iff_getElem.1 hs
-  by_cases hn : ts.length = 0
-  · have : ts = [] := List.length_eq_zero_iff.1 hn
-    subst this
-    simp [sampleInfeq, lookupWith, infeqPre]
-  have hpos : 0 < ts.length := Nat.pos_of_ne_zero hn
-  have hw := lookupWith_eq infeqPre infeqCond infeqRet ts t hpos
-  by_cases h1 : t < ts[0]
-  · have hres : sampleInfeq ts t = none := by
-      rw [sampleInfeq, hw]; simp [infeqPre, hn, h1]
-    refine ⟨⟨fun _ i h => ?_, fun _ => hres⟩, by simp [hres]⟩
-    rcases Nat.eq_zero_or_pos i with rfl | hi
-    · exact h1
-    · exact lt_of_lt_of_le h1 (hsorted 0 i hpos h hi)
-  by_cases h2 : t ≥ ts[ts.length - 1]
-  · have hres : sampleInfeq ts t = some (ts.length - 1) := by
-      rw [sampleInfeq, hw]; simp [infeqPre, hn, h1, h2]
-    refine ⟨⟨fun h => by simp [hres] at h, fun h => absurd (h 0 hpos) h1⟩, ?_⟩
-    intro r hr
-    rw [hres] at hr
-    cases hr
-    exact ⟨by omega, h2, fun j hj hlt => by omega⟩
-  · -- the loop
-    have hloop : sampleInfeq ts t = lookupLoop (infeqCond t) (fun i => infeqRet i t) 0 ts := by
-      rw [sampleInfeq, hw]; simp [infeqPre, hn, h1, h2]
-    rcases lookupLoop_spec (infeqCond t) (fun i => infeqRet i t) ts 0 with ⟨k, hk, hc, _, hr⟩ | ⟨hno, _⟩
-    · have hres : sampleInfeq ts t = some k := by rw [hloop, hr]; simp [infeqRet]
-      simp only [infeqCond, Bool.and_eq_true, decide_eq_true_eq] at hc
-      refine ⟨⟨fun h => by simp [hres] at h, fun h => absurd (h 0 hpos) h1⟩, ?_⟩
-      intro r hr'
-      rw [hres] at hr'
-      cases hr'
-      refine ⟨by omega, hc.1, fun j hj hlt => ?_⟩
-      rcases Nat.eq_or_lt_of_le (Nat.succ_le_of_lt hlt) with rfl | hlt'
-      · exact hc.2
-      · exact lt_of_lt_of_le hc.2 (hsorted (k+1) j hk hj hlt')
-    · exfalso
-      have := all_le_of_no_bracket ts t (fun _ => le_of_not_gt h1)
-        (fun k h hc => by
-          have := hno k h
-          simp [infeqCond] at this
-          exact absurd hc.2 (not_lt.2 (this hc.1)))
-        (ts.length - 1) (by omega)
-      exact h2 this
-
 theorem all_lt_of_no_bracket (l : List Rat) (t : Rat) (h0 : ∀ h : 0 < l.length, l[0] < t)
     (hno : ∀ k, ∀ h : k + 1 < l.length, ¬ (l[k] < t ∧ t ≤ l[k+1])) :
     ∀ k, ∀ h : k < l.length, l[k] < t := by
@@ -434,10 +385,122 @@ theorem sorted_le {ts : List Rat} (hs : ts.Pairwise (· ≤ ·)) {i j : Nat} (hi
 theorem sorted_lt {ts : List Rat} (hs : ts.Pairwise (· < ·)) {i j : Nat} (hi : i < ts.length) (hj : j < ts.length)
     (h : i < j) : ts[i] < ts[j] := List.pairwise_iff_getElem.1 hs i j hi hj h
 
+theorem abs_sub_of_le {a t : Rat} (h : a ≤ t) : |t - a| = t - a := abs_of_nonneg (by linarith)
+theorem abs_sub_of_ge {a t : Rat} (h : t ≤ a) : |t - a| = a - t := by
+  rw [abs_of_nonpos (by linarith)]; linarith
+
+
+/-! ### `_first_sample_with_same_time` -/
+
+theorem firstSame_zero (ts : List Rat) : firstSame ts 0 = 0 := by simp [firstSame]
+
+theorem firstSame_succ (ts : List Rat) (i : Nat) (h : i + 1 < ts.length) :
+    firstSame ts (i + 1) = if ts[i] = ts[i+1] then firstSame ts i else i + 1 := by
+  have h1 : ts.getD i 0 = ts[i] := by simp [List.getD_eq_getElem?_getD, List.getElem?_eq_getElem (by omega : i < ts.length)]
+  have h2 : ts.getD (i + 1) 0 = ts[i+1] := by simp [List.getD_eq_getElem?_getD, List.getElem?_eq_getElem h]
+  have hpos : decide (((i + 1 : Nat) : Int) > 0) = true := by
+    simp only [gt_iff_lt, decide_eq_true_eq]; omega
+  simp only [firstSame, firstSameCond, h1, h2, hpos, Bool.true_and, beq_iff_eq]
+
+/-- the walk stops at the first index of the run of equal times ending at `k` -/
+theorem firstSame_spec (ts : List Rat) (k : Nat) (hk : k < ts.length) :
+    ∀ r, firstSame ts k = r → ∃ hr : r ≤ k, ts[r]'(by omega) = ts[k] ∧
+      (∀ j, ∀ hj : j < ts.length, r ≤ j → j ≤ k → ts[j] = ts[k]) ∧
+      (∀ hpos : 0 < r, ts[r - 1]'(by omega) ≠ ts[k]) := by
+  induction k with
+  | zero =>
+    intro r hr
+    rw [firstSame_zero] at hr
+    subst hr
+    refine ⟨le_refl 0, rfl, ?_, fun h => absurd h (lt_irrefl 0)⟩
+    intro j hj _ hj0
+    have : j = 0 := by omega
+    subst this; rfl
+  | succ i ih =>
+    intro r hr
+    rw [firstSame_succ ts i hk] at hr
+    by_cases heq : ts[i] = ts[i+1]
+    · rw [if_pos heq] at hr
+      obtain ⟨hle, h1, h2, h3⟩ := ih (by omega) r hr
+      refine ⟨by omega, by rw [h1, heq], ?_, ?_⟩
+      · intro j hj hrj hji
+        rcases Nat.eq_or_lt_of_le hji with rfl | hlt
+        · rfl
+        · rw [h2 j hj hrj (by omega), heq]
+      · intro hpos
+        rw [← heq]; exact h3 hpos
+    · rw [if_neg heq] at hr
+      subst hr
+      refine ⟨le_refl _, rfl, ?_, ?_⟩
+      · intro j hj h1' h2'
+        have : j = i + 1 := by omega
+        subst this; rfl
+      · intro _
+        simpa using heq
+
+/-- in a non-decreasing list everything before the walk's result is strictly earlier -/
+theorem firstSame_lt {ts : List Rat} (hs : ts.Pairwise (· ≤ ·)) (k : Nat) (hk : k < ts.length) :
+    ∀ j, ∀ hj : j < ts.length, j < firstSame ts k → ts[j] < ts[k] := by
+  intro j hj hlt
+  obtain ⟨hr, _, _, h3⟩ := firstSame_spec ts k hk _ rfl
+  have hpos : 0 < firstSame ts k := by omega
+  have hne := h3 hpos
+  have hle : ts[firstSame ts k - 1]'(by omega) ≤ ts[k] := sorted_le hs (by omega) hk (by omega)
+  have hj' : ts[j] ≤ ts[firstSame ts k - 1]'(by omega) := sorted_le hs hj (by omega) (by omega)
+  exact lt_of_le_of_lt hj' (lt_of_le_of_ne hle hne)
+
+theorem finish_false (ts : List Rat) (k : Nat) : finish ts (false, k) = k := rfl
+theorem finish_true (ts : List Rat) (k : Nat) : finish ts (true, k) = firstSame ts k := rfl
+
+
+theorem infeq_spec (ts : List Rat) (t : Rat) (hs : ts.Pairwise (· ≤ ·)) :
+    (sampleInfeq ts t = none ↔ ∀ i, ∀ h : i < ts.length, t < ts[i]) ∧
+    (∀ r, sampleInfeq ts t = some r → ∃ h : r < ts.length, ts[r] ≤ t ∧
+        ∀ j, ∀ hj : j < ts.length, r < j → t < ts[j]) := by
+  by_cases hn : ts.length = 0
+  · have : ts = [] := List.length_eq_zero_iff.1 hn
+    subst this
+    simp [sampleInfeq, lookupWith, infeqPre]
+  have hpos : 0 < ts.length := Nat.pos_of_ne_zero hn
+  have hw := lookupWith_eq infeqPre infeqCond infeqRet ts t hpos
+  by_cases h1 : t < ts[0]
+  · have hres : sampleInfeq ts t = none := by
+      rw [sampleInfeq, hw]; simp [infeqPre, hn, h1]
+    refine ⟨⟨fun _ i h => ?_, fun _ => hres⟩, by simp [hres]⟩
+    exact lt_of_lt_of_le h1 (sorted_le hs hpos h (Nat.zero_le i))
+  by_cases h2 : t ≥ ts[ts.length - 1]
+  · have hres : sampleInfeq ts t = some (ts.length - 1) := by
+      rw [sampleInfeq, hw]; simp [infeqPre, hn, h1, h2, finish]
+    refine ⟨⟨fun h => by simp [hres] at h, fun h => absurd (h 0 hpos) h1⟩, ?_⟩
+    intro r hr
+    rw [hres] at hr
+    cases hr
+    exact ⟨by omega, h2, fun j hj hlt => by omega⟩
+  · have hloop : sampleInfeq ts t = (lookupLoop (infeqCond t) (fun i => infeqRet i t) 0 ts).map (finish ts) := by
+      rw [sampleInfeq, hw]; simp [infeqPre, hn, h1, h2]
+    rcases lookupLoop_spec (infeqCond t) (fun i => infeqRet i t) ts 0 with ⟨k, hk, hc, _, hr⟩ | ⟨hno, _⟩
+    · have hres : sampleInfeq ts t = some k := by rw [hloop, hr]; simp [infeqRet, finish]
+      simp only [infeqCond, Bool.and_eq_true, decide_eq_true_eq] at hc
+      refine ⟨⟨fun h => by simp [hres] at h, fun h => absurd (h 0 hpos) h1⟩, ?_⟩
+      intro r hr'
+      rw [hres] at hr'
+      cases hr'
+      refine ⟨by omega, hc.1, fun j hj hlt => ?_⟩
+      exact lt_of_lt_of_le hc.2 (sorted_le hs hk hj (by omega))
+    · exfalso
+      have := all_le_of_no_bracket ts t (fun _ => le_of_not_gt h1)
+        (fun k h hc => by
+          have := hno k h
+          simp [infeqCond] at this
+          exact absurd hc.2 (not_lt.2 (this hc.1)))
+        (ts.length - 1) (by omega)
+      exact h2 this
+
+/-- `supeq`, every non-decreasing list: the first sample not before `t`, `None` exactly when there is none -/
 theorem supeq_spec (ts : List Rat) (t : Rat) (hs : ts.Pairwise (· ≤ ·)) :
     (sampleSupeq ts t = none ↔ ∀ i, ∀ h : i < ts.length, ts[i] < t) ∧
     (∀ r, sampleSupeq ts t = some r → ∃ h : r < ts.length, t ≤ ts[r] ∧
-        ∀ j, ∀ hj : j < ts.length, ts[j] < ts[r] → ts[j] < t) := by
+        ∀ j, ∀ hj : j < ts.length, j < r → ts[j] < t) := by
   by_cases hn : ts.length = 0
   · have : ts = [] := List.length_eq_zero_iff.1 hn
     subst this
@@ -446,39 +509,28 @@ theorem supeq_spec (ts : List Rat) (t : Rat) (hs : ts.Pairwise (· ≤ ·)) :
   have hw := lookupWith_eq supeqPre supeqCond supeqRet ts t hpos
   by_cases h1 : t ≤ ts[0]
   · have hres : sampleSupeq ts t = some 0 := by
-      rw [sampleSupeq, hw]; simp [supeqPre, hn, h1]
+      rw [sampleSupeq, hw]; simp [supeqPre, hn, h1, finish]
     refine ⟨⟨fun h => by simp [hres] at h, fun h => absurd (h 0 hpos) (not_lt.2 h1)⟩, ?_⟩
     intro r hr
     rw [hres] at hr
     cases hr
-    exact ⟨hpos, h1, fun j hj hlt => absurd (sorted_le hs hpos hj (Nat.zero_le j)) (not_le.2 hlt)⟩
-  by_cases h2 : t = ts[ts.length - 1]
-  · have hres : sampleSupeq ts t = some (ts.length - 1) := by
-      rw [sampleSupeq, hw]; simp [supeqPre, hn, h1, ← h2]
-    refine ⟨⟨fun h => by simp [hres] at h, fun h => absurd (h (ts.length - 1) (by omega)) (by rw [← h2]; exact lt_irrefl t)⟩, ?_⟩
-    intro r hr
-    rw [hres] at hr
-    cases hr
-    exact ⟨by omega, le_of_eq h2, fun j hj hlt => by rw [h2]; exact hlt⟩
+    exact ⟨hpos, h1, fun j hj hlt => by omega⟩
   by_cases h3 : t > ts[ts.length - 1]
   · have hres : sampleSupeq ts t = none := by
-      rw [sampleSupeq, hw]; simp [supeqPre, hn, h1, h2, h3]
+      rw [sampleSupeq, hw]; simp [supeqPre, hn, h1, h3]
     refine ⟨⟨fun _ i h => lt_of_le_of_lt (sorted_le hs h (by omega) (by omega)) h3, fun _ => hres⟩, by simp [hres]⟩
-  · have hloop : sampleSupeq ts t = lookupLoop (supeqCond t) (fun i => supeqRet i t) 0 ts := by
-      rw [sampleSupeq, hw]; simp [supeqPre, hn, h1, h2, h3]
-    have hlast : t < ts[ts.length - 1] := lt_of_le_of_ne (not_lt.1 h3) h2
-    rcases lookupLoop_spec (supeqCond t) (fun i => supeqRet i t) ts 0 with ⟨k, hk, hc, hfirst, hr⟩ | ⟨hno, _⟩
-    · have hres : sampleSupeq ts t = some (k + 1) := by rw [hloop, hr]; simp [supeqRet]
+  · have hloop : sampleSupeq ts t = (lookupLoop (supeqCond t) (fun i => supeqRet i t) 0 ts).map (finish ts) := by
+      rw [sampleSupeq, hw]; simp [supeqPre, hn, h1, h3]
+    have hlast : t ≤ ts[ts.length - 1] := not_lt.1 h3
+    rcases lookupLoop_spec (supeqCond t) (fun i => supeqRet i t) ts 0 with ⟨k, hk, hc, _, hr⟩ | ⟨hno, _⟩
+    · have hres : sampleSupeq ts t = some (k + 1) := by rw [hloop, hr]; simp [supeqRet, finish]
       simp only [supeqCond, Bool.and_eq_true, decide_eq_true_eq] at hc
       refine ⟨⟨fun h => by simp [hres] at h, fun h => absurd (h (k+1) hk) (not_lt.2 hc.2)⟩, ?_⟩
       intro r hr'
       rw [hres] at hr'
       cases hr'
       refine ⟨hk, hc.2, fun j hj hlt => ?_⟩
-      have hjk : j ≤ k := by
-        by_contra hcon
-        exact absurd (sorted_le hs hk hj (by omega)) (not_le.2 hlt)
-      exact lt_of_le_of_lt (sorted_le hs hj (by omega) hjk) hc.1
+      exact lt_of_le_of_lt (sorted_le hs hj (by omega) (by omega)) hc.1
     · exfalso
       have := all_lt_of_no_bracket ts t (fun _ => not_le.1 h1)
         (fun k h hc => by
@@ -486,17 +538,15 @@ theorem supeq_spec (ts : List Rat) (t : Rat) (hs : ts.Pairwise (· ≤ ·)) :
           simp [supeqCond] at this
           exact absurd hc.2 (not_le.2 (this hc.1)))
         (ts.length - 1) (by omega)
-      exact absurd this (not_lt.2 (le_of_lt hlast))
+      exact absurd this (not_lt.2 hlast)
 
-theorem abs_sub_of_le {a t : Rat} (h : a ≤ t) : |t - a| = t - a := abs_of_nonneg (by linarith)
-theorem abs_sub_of_ge {a t : Rat} (h : t ≤ a) : |t - a| = a - t := by
-  rw [abs_of_nonpos (by linarith)]; linarith
-
+/-- `closest`, every non-decreasing list: a sample at minimal distance, and the earliest index among the equidistant
+ones; `None` exactly when there is no sample -/
 theorem closest_spec (ts : List Rat) (t : Rat) (hs : ts.Pairwise (· ≤ ·)) :
     (sampleClosest ts t = none ↔ ts = []) ∧
     (∀ r, sampleClosest ts t = some r → ∃ h : r < ts.length,
         (∀ j, ∀ hj : j < ts.length, |t - ts[r]| ≤ |t - ts[j]|) ∧
-        (∀ j, ∀ hj : j < ts.length, |t - ts[j]| = |t - ts[r]| → ts[r] ≤ ts[j])) := by
+        (∀ j, ∀ hj : j < ts.length, |t - ts[j]| = |t - ts[r]| → r ≤ j)) := by
   by_cases hn : ts.length = 0
   · have : ts = [] := List.length_eq_zero_iff.1 hn
     subst this
@@ -504,58 +554,74 @@ theorem closest_spec (ts : List Rat) (t : Rat) (hs : ts.Pairwise (· ≤ ·)) :
   have hne : ts ≠ [] := fun h => hn (by simp [h])
   have hpos : 0 < ts.length := Nat.pos_of_ne_zero hn
   have hw := lookupWith_eq closestPre closestCond closestRet ts t hpos
+  -- walking back from an index `k` of minimal distance whose ties are not earlier in time
+  have hwalk : ∀ k, ∀ hk : k < ts.length, (∀ j, ∀ hj : j < ts.length, |t - ts[k]| ≤ |t - ts[j]|) →
+      (∀ j, ∀ hj : j < ts.length, |t - ts[j]| = |t - ts[k]| → ts[k] ≤ ts[j]) →
+      ∃ h : firstSame ts k < ts.length,
+        (∀ j, ∀ hj : j < ts.length, |t - ts[firstSame ts k]| ≤ |t - ts[j]|) ∧
+        (∀ j, ∀ hj : j < ts.length, |t - ts[j]| = |t - ts[firstSame ts k]| → firstSame ts k ≤ j) := by
+    intro k hk hmin htie
+    obtain ⟨hr, heq, _, _⟩ := firstSame_spec ts k hk _ rfl
+    refine ⟨by omega, fun j hj => by rw [heq]; exact hmin j hj, fun j hj he => ?_⟩
+    rw [heq] at he
+    by_contra hc
+    have := firstSame_lt hs k hk j hj (not_le.1 hc)
+    exact absurd (htie j hj he) (not_le.2 this)
   by_cases h1 : t ≤ ts[0]
   · have hres : sampleClosest ts t = some 0 := by
-      rw [sampleClosest, hw]; simp [closestPre, hn, h1]
+      rw [sampleClosest, hw]; simp [closestPre, hn, h1, finish]
     refine ⟨⟨fun h => by simp [hres] at h, fun h => absurd h hne⟩, ?_⟩
     intro r hr
     rw [hres] at hr
     cases hr
-    refine ⟨hpos, fun j hj => ?_, fun j hj _ => sorted_le hs hpos hj (Nat.zero_le j)⟩
+    refine ⟨hpos, fun j hj => ?_, fun j hj _ => Nat.zero_le j⟩
     have := sorted_le hs hpos hj (Nat.zero_le j)
     rw [abs_sub_of_ge h1, abs_sub_of_ge (le_trans h1 this)]
     linarith
   by_cases h2 : t ≥ ts[ts.length - 1]
-  · have hres : sampleClosest ts t = some (ts.length - 1) := by
-      rw [sampleClosest, hw]; simp [closestPre, hn, h1, h2]
+  · have hres : sampleClosest ts t = some (firstSame ts (ts.length - 1)) := by
+      rw [sampleClosest, hw]; simp [closestPre, hn, h1, h2, finish]
     refine ⟨⟨fun h => by simp [hres] at h, fun h => absurd h hne⟩, ?_⟩
     intro r hr
     rw [hres] at hr
     cases hr
     have hlastlt : ts.length - 1 < ts.length := by omega
-    refine ⟨hlastlt, fun j hj => ?_, fun j hj he => ?_⟩
-    · have := sorted_le hs hj hlastlt (by omega)
+    apply hwalk (ts.length - 1) hlastlt
+    · intro j hj
+      have := sorted_le hs hj hlastlt (by omega)
       rw [abs_sub_of_le h2, abs_sub_of_le (le_trans this h2)]
       linarith
-    · have := sorted_le hs hj hlastlt (by omega)
+    · intro j hj he
+      have := sorted_le hs hj hlastlt (by omega)
       rw [abs_sub_of_le h2, abs_sub_of_le (le_trans this h2)] at he
       linarith
-  · have hloop : sampleClosest ts t = lookupLoop (closestCond t) (fun i => closestRet i t) 0 ts := by
+  · have hloop : sampleClosest ts t = (lookupLoop (closestCond t) (fun i => closestRet i t) 0 ts).map (finish ts) := by
       rw [sampleClosest, hw]; simp [closestPre, hn, h1, h2]
     rcases lookupLoop_spec (closestCond t) (fun i => closestRet i t) ts 0 with ⟨k, hk, hc, _, hr⟩ | ⟨hno, _⟩
     · simp only [closestCond, Bool.and_eq_true, decide_eq_true_eq] at hc
       have hklt : k < ts.length := by omega
-      -- distances to the samples on either side of the bracket
       have hleft : ∀ j, ∀ hj : j < ts.length, j ≤ k → |t - ts[j]| = t - ts[j] ∧ ts[j] ≤ ts[k] := fun j hj hjk =>
         ⟨abs_sub_of_le (le_trans (sorted_le hs hj hklt hjk) hc.1), sorted_le hs hj hklt hjk⟩
       have hright : ∀ j, ∀ hj : j < ts.length, k + 1 ≤ j → |t - ts[j]| = ts[j] - t ∧ ts[k+1] ≤ ts[j] := fun j hj hjk =>
         ⟨abs_sub_of_ge (le_trans (le_of_lt hc.2) (sorted_le hs hk hj hjk)), sorted_le hs hk hj hjk⟩
       by_cases hd : t - ts[k] ≤ ts[k+1] - t
-      · have hres : sampleClosest ts t = some k := by rw [hloop, hr]; simp [closestRet, hd]
+      · have hres : sampleClosest ts t = some (firstSame ts k) := by rw [hloop, hr]; simp [closestRet, hd, finish]
         refine ⟨⟨fun h => by simp [hres] at h, fun h => absurd h hne⟩, ?_⟩
         intro r hr'
         rw [hres] at hr'
         cases hr'
-        refine ⟨hklt, fun j hj => ?_, fun j hj he => ?_⟩
-        · rw [(hleft k hklt (le_refl k)).1]
+        apply hwalk k hklt
+        · intro j hj
+          rw [(hleft k hklt (le_refl k)).1]
           rcases Nat.lt_or_ge k j with hjk | hjk
           · have := hright j hj hjk; rw [this.1]; linarith [this.2]
           · have := hleft j hj hjk; rw [this.1]; linarith [this.2]
-        · rw [(hleft k hklt (le_refl k)).1] at he
+        · intro j hj he
+          rw [(hleft k hklt (le_refl k)).1] at he
           rcases Nat.lt_or_ge k j with hjk | hjk
           · have := hright j hj hjk; linarith [this.2, hc.2]
           · have := hleft j hj hjk; rw [this.1] at he; linarith
-      · have hres : sampleClosest ts t = some (k + 1) := by rw [hloop, hr]; simp [closestRet, hd]
+      · have hres : sampleClosest ts t = some (k + 1) := by rw [hloop, hr]; simp [closestRet, hd, finish]
         have hd' : ts[k+1] - t < t - ts[k] := not_le.1 hd
         refine ⟨⟨fun h => by simp [hres] at h, fun h => absurd h hne⟩, ?_⟩
         intro r hr'
@@ -568,7 +634,7 @@ theorem closest_spec (ts : List Rat) (t : Rat) (hs : ts.Pairwise (· ≤ ·)) :
           · have := hleft j hj hjk; rw [this.1]; linarith [this.2]
         · rw [(hright (k+1) hk (le_refl _)).1] at he
           rcases Nat.lt_or_ge k j with hjk | hjk
-          · exact (hright j hj hjk).2
+          · exact hjk
           · have := hleft j hj hjk; rw [this.1] at he; linarith [this.2]
     · exfalso
       have := all_le_of_no_bracket ts t (fun _ => le_of_lt (not_le.1 h1))
@@ -578,5 +644,6 @@ theorem closest_spec (ts : List Rat) (t : Rat) (hs : ts.Pairwise (· ≤ ·)) :
           exact absurd hc.2 (not_lt.2 (this hc.1)))
         (ts.length - 1) (by omega)
       exact h2 this
+
 
 end Strengths
